@@ -143,6 +143,11 @@ func (r *rwRT) ruleCloseWrap() {
 						if len(e.Args) == 2 {
 							closed[blockName(o.St, e.Args[1])] = true
 						}
+					case "pushReturn":
+						// a return statement appended to B closes it
+						if len(e.Args) >= 1 {
+							closed[blockName(o.St, e.Args[0])] = true
+						}
 					case "rewriteStmt":
 						// rewriteStmt(post, isLast=true, B) closes B itself (yield / if / assert on a final return)
 						if len(e.Args) == 4 {
